@@ -254,7 +254,11 @@ class Deployment:
                 # units): evaluation must reflect what the file holds now
                 path = os.path.join(self.world.userdir, "%s.hdf5" % op["alias"])
                 if self._alias_holder.get(op["alias"]) != op.get("lib", 0):
-                    lib.samples.write(path, overwrite=True)
+                    if op.get("alias_mode") == "append-overwrite" and os.path.exists(path):
+                        # the documented "replace only the dataset, keep the file" mode
+                        lib.samples.write(path, overwrite=True, append=True)
+                    else:
+                        lib.samples.write(path, overwrite=True)
                     self._alias_holder[op["alias"]] = op.get("lib", 0)
                     self.log.add("file-write", "alias:%s" % op["alias"], {"lib": op.get("lib", 0)})
                 return path
